@@ -100,14 +100,16 @@ def build(body: List[ast.stmt]) -> CFG:
         if isinstance(s, InlineBlock):
             n = g.new(s, "if", lh)
             link(preds, n)
-            blocks[s.label] = []
+            blocks.setdefault(s.label, []).append([])       # copies of a block may nest: a jump leaves the innermost one
             t = seq(s.body, [(n, True)], loop)
-            return t + blocks.pop(s.label)
+            return t + blocks[s.label].pop()
         if isinstance(s, InlineJump):
             n = g.new(s, "stmt", lh)
             link(preds, n)
-            blocks[s.label].append((n, None))
-            return []
+            if blocks.get(s.label):
+                blocks[s.label][-1].append((n, None))
+                return []
+            return [(n, None)]      # a jump whose block is not around it any more: falls through
         if isinstance(s, ast.If):
             n = g.new(s, "if", lh)
             link(preds, n)
